@@ -255,3 +255,115 @@ def depends(ctx, res, other, rules=None, why=""):
         res.analysed["units"].add(u)
     res.tables.setdefault("depends_on", []).append({"property": other, "rules": sorted(rules) if rules else "all", "why": why, "obligations": n})
     return n
+
+
+# ---------------------------------------------------------------------------------------------------------
+# linear normal form of the evaluator's value strings: "((a+b)+#15)" and "(#15+(b+a))" are the same sum
+import re as _re2
+
+
+def strip_tags(s):
+    """Drop epoch / fresh-symbol tags (@N, )#N) that distinguish reads of the same place at different times."""
+    s = _re2.sub(r"@L?\d+", "", s)
+    s = _re2.sub(r"\)#\d+", ")", s)
+    return s
+
+
+def _top_split(inner):
+    """Position and operator of the single depth-0 binary + or - of a fully parenthesised "L op R", else None."""
+    depth = 0
+    pos = None
+    i = 0
+    while i < len(inner):
+        ch = inner[i]
+        if ch in "([":
+            depth += 1
+        elif ch in ")]":
+            depth -= 1
+        elif depth == 0 and ch in "+-" and i > 0:
+            if ch == "-" and inner[i + 1:i + 2] == ">":
+                i += 2
+                continue
+            prev = inner[i - 1]
+            if prev in "+-*/%<>=&|^!(,":
+                i += 1
+                continue      # unary sign
+            pos = (i, ch)
+        elif depth == 0 and ch in "*/%<>=&|^?:," and not (ch == ">" and inner[i - 1:i] == "-"):
+            return None       # another operator at the top: not a plain sum
+        i += 1
+    return pos
+
+
+def linsum(s, tags=False):
+    """(terms, constant): multiset of additive terms (str -> coefficient) and integer constant of a value string."""
+    if not tags:
+        s = strip_tags(s)
+    terms = {}
+    const = [0]
+
+    def add(t, sign):
+        t = t.strip()
+        while t.startswith("(") and t.endswith(")") and _balanced_all(t):
+            inner = t[1:-1]
+            sp = _top_split(inner)
+            if sp is None:
+                # maybe redundant parentheses around an atom
+                if _balanced_str(inner) and not any(c in inner for c in "+*/%<>=|^?") and "-" not in inner.replace("->", ""):
+                    t = inner.strip()
+                    continue
+                break
+            i, op = sp
+            add(inner[:i], sign)
+            add(inner[i + 1:], sign if op == "+" else -sign)
+            return
+        m = _re2.match(r"^#(-?\d+)$", t)
+        if m:
+            const[0] += sign * int(m.group(1))
+            return
+        m = _re2.match(r"^\(?(.+)\*#(\d+)\)?$", t)
+        if m and _balanced_str(m.group(1)) and t.startswith("(") == t.endswith(")"):
+            sub, c = linsum(m.group(1), tags=True)
+            for k, v in sub.items():
+                terms[k] = terms.get(k, 0) + sign * v * int(m.group(2))
+            const[0] += sign * c * int(m.group(2))
+            return
+        if t:
+            terms[t] = terms.get(t, 0) + sign
+    add(s, 1)
+    return {k: v for k, v in terms.items() if v != 0}, const[0]
+
+
+def _balanced_str(t):
+    d = 0
+    for ch in t:
+        if ch in "([":
+            d += 1
+        elif ch in ")]":
+            d -= 1
+            if d < 0:
+                return False
+    return d == 0
+
+
+def _balanced_all(t):
+    """True when the first '(' of t matches its last ')'."""
+    d = 0
+    for i, ch in enumerate(t):
+        if ch == "(":
+            d += 1
+        elif ch == ")":
+            d -= 1
+            if d == 0 and i != len(t) - 1:
+                return False
+    return d == 0
+
+
+def lindiff(a, b):
+    """Normal form of a - b."""
+    ta, ca = linsum(a)
+    tb, cb = linsum(b)
+    out = dict(ta)
+    for k, v in tb.items():
+        out[k] = out.get(k, 0) - v
+    return {k: v for k, v in out.items() if v != 0}, ca - cb
